@@ -201,6 +201,12 @@ def run_cases(chk: Check, n, with_model=True):
             if mfam != rfam or back_part.strip() != rback:
                 chk.disagree("family / write-back: Model/Family.lean vs the real adjust_* output",
                              dict(input=inp, model=c["model_family"], real_family=rfam, real_structure=rback))
+        lacking = [(ek, nm) for ek, nm in got_keys
+                   if not all(f in out[ek][nm] for f in ("pvalue_adj", "alpha_adj", "null_rejected", "pvalue"))]
+        if lacking:
+            chk.fail("a selected hypothesis comes back without pvalue_adj / alpha_adj / null_rejected (it was left out of "
+                     "the family)", dict(input=inp, hypotheses=[str(k) for k in lacking]))
+            continue
         real = [(out[ek][nm]["pvalue_adj"], out[ek][nm]["alpha_adj"], out[ek][nm]["null_rejected"],
                  out[ek][nm]["pvalue"]) for ek, nm in got_keys]
         def mismatch(line, pvals, tol):
